@@ -10406,7 +10406,9 @@ bool SoPlexBase<R>::writeBasisFile(const char* filename, const NameSet* rowNames
 {
    assert(filename != nullptr);
 
-   if(_isRealLPLoaded)
+   // the solver may still hold a basis that has been discarded (hasBasis() is false, getBasis() returns the slack basis):
+   // then the file without entries is written below
+   if(_isRealLPLoaded && _hasBasis)
       return _solver.writeBasisFile(filename, rowNames, colNames, cpxFormat);
    else
    {
